@@ -108,6 +108,8 @@ def no_cancellation(ctx, rel, name):
             return norm(e.func.value) == norm(e.args[0])
         if isinstance(e, ast.Call) and norm(e.func) == 'np.sum' and len(e.args) == 1:
             return sos(e.args[0], seen)
+        if isinstance(e, ast.Call) and norm(e.func) in ('min', 'max', 'fmin', 'fmax', 'np.minimum', 'np.maximum', 'np.fmin', 'np.fmax') and e.args and not e.keywords:
+            return all(sos(a_, seen) for a_ in e.args)        # the smaller / larger of sums of squares is one of them
         base = e
         while isinstance(base, ast.Subscript):
             base = base.value
@@ -122,9 +124,11 @@ def no_cancellation(ctx, rel, name):
         return False
     cmps = [c for c in ast.walk(fn) if isinstance(c, ast.Compare) and len(c.ops) == 1 and isinstance(c.ops[0], (ast.Lt, ast.LtE, ast.Gt, ast.GtE))
             and not any(isinstance(x, ast.Constant) for x in [c.left] + c.comparators) and all(isinstance(x, (ast.Name, ast.Subscript, ast.BinOp, ast.Call)) for x in [c.left] + c.comparators)]
+    # min(a, b) / max(a, b) of two squared lengths is the same comparison
+    cmps = [(c, [c.left, c.comparators[0]]) for c in cmps] + [(c, list(c.args)) for c in ast.walk(fn) if isinstance(c, ast.Call) and norm(c.func) in ('min', 'max', 'fmin', 'fmax', 'np.minimum', 'np.maximum', 'np.fmin', 'np.fmax')
+                                                               and len(c.args) == 2 and not c.keywords]
     n = 0
-    for c in cmps:
-        sides = [c.left, c.comparators[0]]
+    for c, sides in cmps:
         # the comparison of two squared lengths: at least one side is (a name bound to) a sum of products
         if not any(isinstance(x, (ast.Name, ast.Subscript)) and any(isinstance(v, ast.BinOp) for _t, v, _b in assigns.get((x if isinstance(x, ast.Name) else x.value).id if isinstance(x if isinstance(x, ast.Name) else x.value, ast.Name) else '', []))
                    or isinstance(x, ast.BinOp) for x in sides):
